@@ -4,6 +4,7 @@ import (
 	"bytes"
 	"context"
 	"encoding/json"
+	"errors"
 	"net/http"
 	"strings"
 
@@ -17,300 +18,13 @@ import (
 	"github.com/wundergraph/graphql-go-tools/v2/pkg/operationreport"
 )
 
-// ---- reference GraphQL executor (the spec's ExecuteSelectionSet / CollectFields / CompleteValue) over an
-// in-memory object graph. It serves both as the monolithic server owning all the data and, run against a
-// subgraph's own schema, as that subgraph.
-
-type zzO struct {
-	typ string
-	f   map[string]interface{} // nil | string (raw JSON scalar) | *zzO | []interface{}
-}
-
-type zzExec struct {
-	schema   *ast.Document
-	op       *ast.Document
-	vars     map[string]string // name -> raw JSON
-	errors   int
-	unknown  string // first selected field the schema does not define
-	entities func(repr []byte) *zzO
-}
-
-const zzProp = "\x00P"
-
-type zzCollected struct {
-	key  string
-	refs []int
-}
-
-func (e *zzExec) directivesAllow(refs []int) bool {
-	for _, d := range refs {
-		name := e.op.DirectiveNameString(d)
-		if name != "skip" && name != "include" {
-			continue
-		}
-		v, ok := e.op.DirectiveArgumentValueByName(d, []byte("if"))
-		if !ok {
-			continue
-		}
-		b := false
-		switch v.Kind {
-		case ast.ValueKindBoolean:
-			b = bool(e.op.BooleanValue(v.Ref))
-		case ast.ValueKindVariable:
-			b = e.vars[e.op.VariableValueNameString(v.Ref)] == "true"
-		}
-		if name == "skip" && b {
-			return false
-		}
-		if name == "include" && !b {
-			return false
-		}
-	}
-	return true
-}
-
-func (e *zzExec) typeApplies(cond, runtime string) bool {
-	if cond == runtime {
-		return true
-	}
-	node, ok := e.schema.NodeByNameStr(cond)
-	if !ok {
-		return false
-	}
-	rt, ok := e.schema.NodeByNameStr(runtime)
-	if !ok {
-		return false
-	}
-	switch node.Kind {
-	case ast.NodeKindInterfaceTypeDefinition:
-		return e.schema.NodeImplementsInterface(rt, []byte(cond))
-	case ast.NodeKindUnionTypeDefinition:
-		names, _ := e.schema.UnionTypeDefinitionMemberTypeNames(node.Ref)
-		for _, n := range names {
-			if n == runtime {
-				return true
-			}
-		}
-	}
-	return false
-}
-
-func (e *zzExec) collect(set int, typ string, out *[]zzCollected, visited map[string]bool) {
-	for _, sel := range e.op.SelectionSets[set].SelectionRefs {
-		s := e.op.Selections[sel]
-		switch s.Kind {
-		case ast.SelectionKindField:
-			if e.op.FieldHasDirectives(s.Ref) && !e.directivesAllow(e.op.FieldDirectives(s.Ref)) {
-				continue
-			}
-			key := e.op.FieldAliasOrNameString(s.Ref)
-			found := false
-			for i := range *out {
-				if (*out)[i].key == key {
-					(*out)[i].refs = append((*out)[i].refs, s.Ref)
-					found = true
-				}
-			}
-			if !found {
-				*out = append(*out, zzCollected{key: key, refs: []int{s.Ref}})
-			}
-		case ast.SelectionKindInlineFragment:
-			fr := e.op.InlineFragments[s.Ref]
-			if fr.HasDirectives && !e.directivesAllow(fr.Directives.Refs) {
-				continue
-			}
-			if e.op.InlineFragmentHasTypeCondition(s.Ref) && !e.typeApplies(e.op.InlineFragmentTypeConditionNameString(s.Ref), typ) {
-				continue
-			}
-			if fr.HasSelections {
-				e.collect(fr.SelectionSet, typ, out, visited)
-			}
-		case ast.SelectionKindFragmentSpread:
-			name := e.op.FragmentSpreadNameString(s.Ref)
-			if visited[name] {
-				continue
-			}
-			visited[name] = true
-			fd, ok := e.op.FragmentDefinitionRef([]byte(name))
-			if !ok {
-				continue
-			}
-			def := e.op.FragmentDefinitions[fd]
-			cond := e.op.ResolveTypeNameString(def.TypeCondition.Type)
-			if !e.typeApplies(cond, typ) {
-				continue
-			}
-			e.collect(def.SelectionSet, typ, out, visited)
-		}
-	}
-}
-
-// selection executes the merged selection sets on obj; returns the JSON object or zzProp.
-func (e *zzExec) selection(sets []int, obj *zzO) string {
-	var fields []zzCollected
-	visited := map[string]bool{}
-	for _, s := range sets {
-		e.collect(s, obj.typ, &fields, visited)
-	}
-	var out bytes.Buffer
-	out.WriteByte('{')
-	for i, f := range fields {
-		if i > 0 {
-			out.WriteByte(',')
-		}
-		v := e.field(f, obj)
-		if v == zzProp {
-			return zzProp
-		}
-		out.WriteString(`"` + f.key + `":` + v)
-	}
-	out.WriteByte('}')
-	return out.String()
-}
-
-func (e *zzExec) field(f zzCollected, obj *zzO) string {
-	name := e.op.FieldNameString(f.refs[0])
-	if name == "__typename" {
-		return `"` + obj.typ + `"`
-	}
-	if name == "_entities" && e.entities != nil {
-		return e.entitiesField(f)
-	}
-	node, ok := e.schema.NodeByNameStr(obj.typ)
-	if !ok {
-		if e.unknown == "" {
-			e.unknown = "type " + obj.typ
-		}
-		return "null"
-	}
-	fd, ok := e.schema.NodeFieldDefinitionByName(node, []byte(name))
-	if !ok {
-		if e.unknown == "" {
-			e.unknown = obj.typ + "." + name
-		}
-		return "null"
-	}
-	return e.complete(e.schema.FieldDefinitionType(fd), f.refs, obj.f[name])
-}
-
-func (e *zzExec) complete(typeRef int, refs []int, v interface{}) string {
-	t := e.schema.Types[typeRef]
-	if t.TypeKind == ast.TypeKindNonNull {
-		r := e.complete(t.OfType, refs, v)
-		if r == "null" {
-			e.errors++
-			return zzProp
-		}
-		return r
-	}
-	if v == nil {
-		return "null"
-	}
-	if t.TypeKind == ast.TypeKindList {
-		l, ok := v.([]interface{})
-		if !ok {
-			e.errors++
-			return "null"
-		}
-		var out bytes.Buffer
-		out.WriteByte('[')
-		for i, it := range l {
-			if i > 0 {
-				out.WriteByte(',')
-			}
-			r := e.complete(t.OfType, refs, it)
-			if r == zzProp {
-				return "null"
-			}
-			out.WriteString(r)
-		}
-		out.WriteByte(']')
-		return out.String()
-	}
-	switch x := v.(type) {
-	case string:
-		return x
-	case *zzO:
-		var sets []int
-		for _, r := range refs {
-			if s, ok := e.op.FieldSelectionSet(r); ok {
-				sets = append(sets, s)
-			}
-		}
-		r := e.selection(sets, x)
-		if r == zzProp {
-			return "null"
-		}
-		return r
-	}
-	return "null"
-}
-
-func (e *zzExec) entitiesField(f zzCollected) string {
-	arg, ok := e.op.FieldArgument(f.refs[0], []byte("representations"))
-	if !ok {
-		e.errors++
-		return zzProp
-	}
-	val := e.op.ArgumentValue(arg)
-	var raw []byte
-	if val.Kind == ast.ValueKindVariable {
-		raw = []byte(e.vars[e.op.VariableValueNameString(val.Ref)])
-	} else {
-		raw, _ = e.op.ValueToJSON(val)
-	}
-	var reprs []json.RawMessage
-	if err := json.Unmarshal(raw, &reprs); err != nil {
-		e.errors++
-		return zzProp
-	}
-	var sets []int
-	for _, r := range f.refs {
-		if s, ok := e.op.FieldSelectionSet(r); ok {
-			sets = append(sets, s)
-		}
-	}
-	var out bytes.Buffer
-	out.WriteByte('[')
-	for i, r := range reprs {
-		if i > 0 {
-			out.WriteByte(',')
-		}
-		o := e.entities(r)
-		if o == nil {
-			out.WriteString("null")
-			continue
-		}
-		v := e.selection(sets, o)
-		if v == zzProp {
-			v = "null"
-		}
-		out.WriteString(v)
-	}
-	out.WriteByte(']')
-	return out.String()
-}
-
-func (e *zzExec) run(root *zzO) string {
-	for i := range e.op.RootNodes {
-		if e.op.RootNodes[i].Kind == ast.NodeKindOperationDefinition {
-			od := e.op.OperationDefinitions[e.op.RootNodes[i].Ref]
-			r := e.selection([]int{od.SelectionSet}, root)
-			if r == zzProp {
-				return "null"
-			}
-			return r
-		}
-	}
-	return "null"
-}
-
 // ---- the world: one object graph shared by the monolith and all subgraphs
 
 type zzWorld struct {
 	query    *zzO
 	entities []*zzO
 	keys     map[string][]string // type -> key field names
+	computed map[string]zzComputed
 }
 
 func (w *zzWorld) lookup(repr []byte) *zzO {
@@ -348,7 +62,27 @@ type zzSubgraphs struct {
 	invalid string
 	fail    map[string]int // url -> failure mode (0 none)
 	calls   map[string]int
+	reqs    []zzReq
+	faulted int // failing answers given
 }
+
+type zzReq struct {
+	url, query string
+	reprs      []string
+}
+
+var zzErrTransport = errors.New("connection refused")
+
+const (
+	zzFaultNone = iota
+	zzFaultTransport
+	zzFaultEmpty
+	zzFaultNonJSON
+	zzFaultErrorsNoData
+	zzFaultDataNull
+	zzFaultEntityCount // entity requests only: one entity too few
+	zzFaultKinds
+)
 
 func (s *zzSubgraphs) Load(ctx context.Context, headers http.Header, input []byte) ([]byte, error) {
 	var req struct {
@@ -363,6 +97,33 @@ func (s *zzSubgraphs) Load(ctx context.Context, headers http.Header, input []byt
 		return []byte(`{"errors":[{"message":"bad input"}]}`), nil
 	}
 	s.log = append(s.log, req.URL+" "+req.Body.Query)
+	rq := zzReq{url: req.URL, query: req.Body.Query}
+	if raw, ok := req.Body.Variables["representations"]; ok {
+		var reprs []json.RawMessage
+		_ = json.Unmarshal(raw, &reprs)
+		for _, r := range reprs {
+			rq.reprs = append(rq.reprs, string(r))
+		}
+	}
+	s.reqs = append(s.reqs, rq)
+	isEntity := strings.Contains(req.Body.Query, "_entities")
+	switch s.fail[req.URL] {
+	case zzFaultTransport:
+		s.faulted++
+		return nil, zzErrTransport
+	case zzFaultEmpty:
+		s.faulted++
+		return []byte{}, nil
+	case zzFaultNonJSON:
+		s.faulted++
+		return []byte("<html>502 Bad Gateway</html>"), nil
+	case zzFaultErrorsNoData:
+		s.faulted++
+		return []byte(`{"errors":[{"message":"boom"}]}`), nil
+	case zzFaultDataNull:
+		s.faulted++
+		return []byte(`{"errors":[{"message":"boom"}],"data":null}`), nil
+	}
 	if s.calls == nil {
 		s.calls = map[string]int{}
 	}
@@ -386,10 +147,25 @@ func (s *zzSubgraphs) Load(ctx context.Context, headers http.Header, input []byt
 	for k, v := range req.Body.Variables {
 		vars[k] = string(v)
 	}
-	ex := &zzExec{schema: schema, op: &doc, vars: vars, entities: s.world.lookup}
+	ex := &zzExec{schema: schema, op: &doc, vars: vars, entities: s.world.lookup, computed: s.world.computed, subgraphSide: true}
 	data := ex.run(s.world.query)
+	if ex.missingRequired != "" && s.invalid == "" {
+		s.invalid = "representation sent to " + req.URL + " lacks a @requires field: " + ex.missingRequired
+	}
 	if ex.unknown != "" && s.invalid == "" {
 		s.invalid = "subgraph " + req.URL + " was asked for a field it does not own: " + ex.unknown
+	}
+	// (for a single representation an empty _entities list is, by design of the loader, the same as "entity not
+	// found" - so the count fault needs at least two representations)
+	if s.fail[req.URL] == zzFaultEntityCount && isEntity && len(rq.reprs) > 1 {
+		// answer with one entity too few
+		s.faulted++
+		short := &zzExec{schema: schema, op: &doc, vars: map[string]string{}, entities: s.world.lookup, computed: s.world.computed, subgraphSide: true}
+		for k, v := range vars {
+			short.vars[k] = v
+		}
+		short.vars["representations"] = "[" + strings.Join(rq.reprs[:len(rq.reprs)-1], ",") + "]"
+		data = short.run(s.world.query)
 	}
 	if ex.errors > 0 {
 		return []byte(`{"errors":[{"message":"subgraph error"}],"data":` + data + `}`), nil
@@ -431,6 +207,20 @@ func zzGateway(resp *resolve.GraphQLResponse, variables []byte, subs *zzSubgraph
 	var out bytes.Buffer
 	_, err := r.ResolveGraphQLResponse(ctx, resp, nil, &out)
 	return out.String(), err
+}
+
+// zzCanon re-renders a JSON value with object keys sorted: the property compares JSON values, in which member
+// order is not significant.
+func zzCanon(raw string) string {
+	var v interface{}
+	if err := json.Unmarshal([]byte(raw), &v); err != nil {
+		return raw
+	}
+	b, err := json.Marshal(v)
+	if err != nil {
+		return raw
+	}
+	return string(b)
 }
 
 func zzDataOf(response string) (data string, hasErrors bool, ok bool) {
